@@ -642,8 +642,13 @@ class NUMERIC(FieldType):
         return min_value, max_value
 
     def default_column(self):
+        default = self.default
+        if self.numtype is float:
+            # The column holds sortable integers, so the float default has to
+            # be encoded like the values are
+            default = to_sortable(float, self.bits, self.signed, default)
         return columns.NumericColumn(self.sortable_typecode,
-                                     default=self.default)
+                                     default=default)
 
     def is_valid(self, x):
         try:
